@@ -336,6 +336,10 @@ def harness_run(bind, sub, cases, timeout=900, shards=NPROC, extra_args=()):
 TRIPLE_RE = re.compile(r"\((true|false),(true|false),(\d+)\)")
 
 
+REEVAL_BUDGET = 60
+REEVAL_LEFT = REEVAL_BUDGET
+
+
 def coq_eval(tag, header, terms, per_shard=None, timeout=900):
     """Evaluate Gallina terms of type bool*bool*N with vm_compute.
     Returns (list of (corr_ok, spec_ok, kf) or None, logs)."""
@@ -378,11 +382,18 @@ def coq_eval(tag, header, terms, per_shard=None, timeout=900):
             failed.append((len(out), shards[ix]))
         out.extend(r)
         logs += l[-600:]
-    # a failing shard is re-evaluated case by case, so that one bad case does not hide the others
+    # a failing shard is re-evaluated case by case, so that one bad case does not hide the others; the number of
+    # such re-evaluations is capped per check run (REEVAL_BUDGET): past it the cases stay "could not be evaluated"
     if failed and per_shard != 1:
+        global REEVAL_LEFT
         for pos, terms_ in failed:
-            sub, sublogs = coq_eval(tag + "r", header, terms_, per_shard=1, timeout=min(timeout, 120))
-            out[pos:pos + len(terms_)] = sub
+            take = terms_[:max(0, REEVAL_LEFT)]
+            if not take:
+                logs += "re-evaluation budget used up; %d cases left unevaluated\n" % len(terms_)
+                continue
+            REEVAL_LEFT -= len(take)
+            sub, sublogs = coq_eval(tag + "r", header, take, per_shard=1, timeout=min(timeout, 60))
+            out[pos:pos + len(take)] = sub
             logs += sublogs[-600:]
     return out, logs
 
